@@ -176,8 +176,8 @@ func c19Worker(seed int64, id int, useUDP bool, concurrent bool) (transcript []s
 		}
 		return 0, nil, false
 	}
-	busyN, infoN, unkN := 0, 0, 0
-	unknownNext := false
+	busyN, infoN, unkN, strayN := 0, 0, 0, 0
+	unknownNext, strayNext := false, false
 	unknownDatagram := []byte{6, 0, 0xff, 7, 6, 0x21, 0, 0, 0, 0, 0, 0, 0, 0, 2, 0, 0xaa, 0x55}
 	extra := func(e *refbmc.Event) (byte, []byte, bool) {
 		switch {
@@ -196,6 +196,14 @@ func c19Worker(seed int64, id int, useUDP bool, concurrent bool) (transcript []s
 				unknownNext = true
 			}
 			return 0, []byte{byte(id), byte(unkN)}, true
+		case e.NetFn == 6 && e.Cmd == 0x73:
+			// the first attempt is answered by a late reply to another command (see the transport
+			// closure), the second by the answer
+			strayN++
+			if strayN%2 == 1 {
+				strayNext = true
+			}
+			return 0, []byte{byte(id), byte(strayN), 0x73}, true
 		case e.NetFn == 6 && e.Cmd == 0x3d:
 			infoN++
 			return 0, []byte{byte(infoN), 0x24, 1, 2, 4, 0x11, 10, byte(id), byte(infoN), byte(infoN * 7), 2, byte(id), 3, byte(infoN), 5, 6, byte(infoN), byte(id)}, true
@@ -259,6 +267,12 @@ func c19Worker(seed int64, id int, useUDP bool, concurrent bool) (transcript []s
 				unknownNext = false
 				return unknownDatagram, nil
 			}
+			if strayNext {
+				strayNext = false
+				if last := b.Last(); last != nil && b.Sess != nil && b.Sess.Active {
+					return b.Sess.Wrap(refbmc.BuildRsp(0x81, 0x07, 0, 0x20, last.RqSeq, 0, 0x01, 0, devid), refbmc.WrapOpts{}), nil
+				}
+			}
 			return rsp, nil
 		})
 		t.Mode = memtr.Window
@@ -267,8 +281,15 @@ func c19Worker(seed int64, id int, useUDP bool, concurrent bool) (transcript []s
 	}
 	ctx, cancel := context.WithTimeout(context.Background(), 40*time.Second)
 	defer cancel()
+	alwaysAnswered := map[string]bool{"chassis": true, "chassis-after-stray": true, "devid": true, "devid-after-stray": true, "guid": true, "sl-guid": true,
+		"stray-then-ok": true, "busy-then-ok": true, "unknown-payload-then-ok": true, "raw-devid": true}
 	rec := func(call string, v any, err error) {
 		transcript = append(transcript, fmt.Sprintf("%s => %v err=%v", call, v, err != nil))
+		if err != nil && !useUDP && alwaysAnswered[call] {
+			// the in-memory worker's BMC answers these commands every time and nothing is ever lost on
+			// its transport: a failure has no cause on this connection
+			transcript = append(transcript, fmt.Sprintf("%s%s failed (%v) although this worker's BMC answers it every time and its transport loses nothing", c19Absolute, call, err))
+		}
 	}
 	var olds []*bmc.V2SessionlessTransport
 	defer func() {
@@ -323,7 +344,7 @@ func c19Worker(seed int64, id int, useUDP bool, concurrent bool) (transcript []s
 		}
 	case 1:
 		for k := 0; k < 6; k++ {
-			script = append(script, 2, 16, 17, 15, 14, 16, 4)
+			script = append(script, 2, 16, 17, 15, 18, 16, 4)
 		}
 	case 0:
 		for k := 0; k < 8; k++ {
@@ -338,14 +359,14 @@ func c19Worker(seed int64, id int, useUDP bool, concurrent bool) (transcript []s
 		nops = len(script)
 	}
 	for i := 0; i < nops; i++ {
-		op := r.Intn(18)
+		op := r.Intn(19)
 		if len(script) > 0 {
 			op = script[i]
 		}
 		if sess == nil && op >= 3 && op != 13 && op != 100 {
 			op = 2
 		}
-		if (op == 16 || op == 17) && useUDP {
+		if (op == 16 || op == 17 || op == 18) && useUDP {
 			op = 15 // a busy reply over UDP costs the library's own 500 ms back-off; the in-memory workers (zero back-off) take those
 		}
 		switch op {
@@ -458,6 +479,25 @@ func c19Worker(seed int64, id int, useUDP bool, concurrent bool) (transcript []s
 			cmd := &RawCmd{Op: ipmi.Operation{Function: ipmi.NetworkFunctionAppReq, Command: 0x72}, NoReq: true}
 			code, err := sess.SendCommand(ctx, cmd)
 			rec("unknown-payload-then-ok", fmt.Sprintf("%v %x", code, cmd.Rsp.Data), err)
+		case 18:
+			cmd := &RawCmd{Op: ipmi.Operation{Function: ipmi.NetworkFunctionAppReq, Command: 0x73}, NoReq: true}
+			code, err := sess.SendCommand(ctx, cmd)
+			rec("stray-then-ok", fmt.Sprintf("%v %x", code, cmd.Rsp.Data), err)
+			// the same with one of the library's own command types in flight (their operation values
+			// are package-level data shared by every connection)
+			strayNext = true
+			cs, err := sess.GetChassisStatus(ctx)
+			if cs != nil {
+				rec("chassis-after-stray", fmt.Sprintf("%v %v", cs.PoweredOn, cs.PowerRestorePolicy), err)
+			} else {
+				rec("chassis-after-stray", nil, err)
+			}
+			v, err := sess.GetDeviceID(ctx)
+			if v != nil {
+				rec("devid-after-stray", fmt.Sprintf("%d %v", v.ID, v.Manufacturer), err)
+			} else {
+				rec("devid-after-stray", nil, err)
+			}
 		case 13:
 			// the session (if any) is closed, the old connection is kept open and a new one is dialled
 			if sess != nil {
